@@ -41,6 +41,7 @@ import (
 	"strings"
 	"sync"
 	"sync/atomic"
+	"time"
 
 	"github.com/algorand/msgp/msgp"
 
@@ -60,6 +61,8 @@ type c41target struct {
 	pairs bool
 	// hostile are hand-made malicious inputs (label -> bytes) decoded as they are
 	hostile map[string][]byte
+	// thoroughOnly: skip as a top-level type in the quick tier
+	thoroughOnly bool
 }
 
 // c41bounds: "(pkgpath):(tag expression)" -> value, and "(pkgpath).(Type)" -> values of a
@@ -82,6 +85,7 @@ type c41part struct {
 	overflow atomic.Int64
 	honoured atomic.Int64
 	thorough bool
+	infos    sync.Map // reflect.Type -> *c41typeInfo
 }
 
 func c41newPart(r *ve.Run, name string, b c41bounds) *c41part {
@@ -143,7 +147,7 @@ func c41pkg(t reflect.Type) string {
 // (inner transactions), and it guarantees that no zero-valued struct with `required` fields
 // is ever emitted; structs, arrays and scalars are always filled completely.
 func (p *c41part) set(t reflect.Type, owner reflect.Type, f *reflect.StructField, depth int, salt byte, width int, n int) reflect.Value {
-	const collDepth = 6
+	const collDepth = 4
 	v := reflect.New(t).Elem()
 	if depth > 40 {
 		return v
@@ -331,104 +335,184 @@ type c41walkRes struct {
 	badKeyAt string
 }
 
-// walk inspects every collection of v: records the largest one and any that exceeds its bound.
-func (p *c41part) walk(v reflect.Value, path string, owner reflect.Type, f *reflect.StructField, inherited []int, depth int, res *c41walkRes) {
-	if depth > 40 {
-		return
+// c41frame is a lazily rendered path (rendering strings for every visited field dominated
+// the run time).
+type c41frame struct {
+	up   *c41frame
+	name string
+	idx  int
+}
+
+func (f *c41frame) String() string {
+	if f == nil {
+		return ""
 	}
-	t := v.Type()
-	note := func(n int, bound int) {
-		if n > res.maxLen {
-			res.maxLen, res.maxPath, res.maxBound = n, path, bound
-		}
-		if bound >= 0 && n > bound && res.bad == "" {
-			res.bad = fmt.Sprintf("%s holds %d elements, declared allocbound %d", path, n, bound)
-		}
+	s := f.up.String()
+	switch {
+	case f.name != "":
+		return s + "." + f.name
+	case f.idx == -1:
+		return s + "{key}"
+	case f.idx == -2:
+		return s + "{val}"
 	}
+	return fmt.Sprintf("%s[%d]", s, f.idx)
+}
+
+type c41fieldInfo struct {
+	index  int
+	name   string
+	bounds []int
+}
+
+type c41typeInfo struct {
+	hasColl bool // some slice / map / string is reachable
+	fields  []c41fieldInfo
+	self    []int // bounds declared for the type itself (directive)
+}
+
+// info caches, per type, which fields can hold collections and the bounds declared on them.
+func (p *c41part) info(t reflect.Type) *c41typeInfo {
+	if v, ok := p.infos.Load(t); ok {
+		return v.(*c41typeInfo)
+	}
+	ti := &c41typeInfo{}
+	p.infos.Store(t, ti) // provisional: breaks recursion (recursive types do hold collections)
 	switch t.Kind() {
 	case reflect.String:
-		bs := inherited
-		if f != nil || t.Name() != "" {
-			if b := p.boundsFor(owner, f, t); len(b) > 0 {
-				bs = b
-			}
-		}
-		b := -1
-		if len(bs) > 0 {
-			b = bs[0]
-		}
-		note(v.Len(), b)
-	case reflect.Slice:
-		if v.IsNil() {
-			return
-		}
-		bs := inherited
-		if b := p.boundsFor(owner, f, t); len(b) > 0 {
-			bs = b
-		}
-		b := -1
-		var rest []int
-		if len(bs) > 0 {
-			b, rest = bs[0], bs[1:]
-		}
-		// capacity counts too: a slice re-sliced to a short length still holds the allocation
-		n := v.Len()
-		if v.Cap() > n {
-			n = v.Cap()
-		}
-		if c41isBytes(t) {
-			note(v.Len(), b)
-			return
-		}
-		note(n, b)
-		for i := 0; i < v.Len() && i < 64; i++ {
-			p.walk(v.Index(i), fmt.Sprintf("%s[%d]", path, i), nil, nil, rest, depth+1, res)
-		}
-	case reflect.Map:
-		if v.IsNil() {
-			return
-		}
-		bs := inherited
-		if b := p.boundsFor(owner, f, t); len(b) > 0 {
-			bs = b
-		}
-		b := -1
-		var rest []int
-		if len(bs) > 0 {
-			b, rest = bs[0], bs[1:]
-		}
-		note(v.Len(), b)
-		it := v.MapRange()
-		i := 0
-		for it.Next() && i < 64 {
-			i++
-			if len(rest) > 0 && rest[0] >= 0 && (it.Key().Kind() == reflect.String || it.Key().Kind() == reflect.Slice) && it.Key().Len() > rest[0] {
-				if res.badKey == "" {
-					res.badKey = t.String()
-					res.badKeyAt = fmt.Sprintf("%s has a key of %d bytes, declared key bound %d", path, it.Key().Len(), rest[0])
-				}
-				continue
-			}
-			p.walk(it.Key(), path+"{key}", nil, nil, rest, depth+1, res)
-			p.walk(it.Value(), path+"{val}", nil, nil, nil, depth+1, res)
+		ti.hasColl = true
+		ti.self = p.boundsFor(nil, nil, t)
+	case reflect.Slice, reflect.Map:
+		ti.hasColl = true
+		ti.self = p.boundsFor(nil, nil, t)
+		p.info(t.Elem()) // pre-populate (explore() calls info before going parallel)
+		if t.Kind() == reflect.Map {
+			p.info(t.Key())
 		}
 	case reflect.Ptr:
-		if !v.IsNil() {
-			p.walk(v.Elem(), path, nil, nil, nil, depth+1, res)
-		}
+		ti.hasColl = true
+		p.info(t.Elem())
 	case reflect.Array:
-		if !c41isBytes(t) {
-			for i := 0; i < v.Len(); i++ {
-				p.walk(v.Index(i), fmt.Sprintf("%s[%d]", path, i), nil, nil, nil, depth+1, res)
-			}
-		}
+		ti.hasColl = !c41isBytes(t) && p.info(t.Elem()).hasColl
 	case reflect.Struct:
 		for i := 0; i < t.NumField(); i++ {
 			sf := t.Field(i)
 			if !c41eligible(sf) {
 				continue
 			}
-			p.walk(v.Field(i), path+"."+sf.Name, t, &sf, nil, depth+1, res)
+			sub := p.info(sf.Type)
+			if sub.hasColl {
+				ti.hasColl = true
+				fi := c41fieldInfo{index: i, name: sf.Name}
+				switch sf.Type.Kind() {
+				case reflect.String, reflect.Slice, reflect.Map:
+					fi.bounds = p.boundsFor(t, &sf, sf.Type)
+				}
+				ti.fields = append(ti.fields, fi)
+			}
+		}
+	}
+	return ti
+}
+
+// walk inspects every collection of v: records the largest one and any that exceeds its bound.
+// bounds: the allocbound values in force for v itself (outer level first).
+func (p *c41part) walk(v reflect.Value, fr *c41frame, bounds []int, depth int, res *c41walkRes) {
+	if depth > 40 {
+		return
+	}
+	t := v.Type()
+	note := func(n int, bound int) {
+		if n > res.maxLen {
+			res.maxLen, res.maxPath, res.maxBound = n, fr.String(), bound
+		}
+		if bound >= 0 && n > bound && res.bad == "" {
+			res.bad = fmt.Sprintf("%s holds %d elements, declared allocbound %d", fr.String(), n, bound)
+		}
+	}
+	first := func(bs []int) (int, []int) {
+		if len(bs) == 0 {
+			return -1, nil
+		}
+		return bs[0], bs[1:]
+	}
+	switch t.Kind() {
+	case reflect.String:
+		if len(bounds) == 0 {
+			bounds = p.info(t).self
+		}
+		b, _ := first(bounds)
+		note(v.Len(), b)
+	case reflect.Slice:
+		if v.IsNil() {
+			return
+		}
+		if len(bounds) == 0 {
+			bounds = p.info(t).self
+		}
+		b, rest := first(bounds)
+		if c41isBytes(t) {
+			note(v.Len(), b)
+			return
+		}
+		// capacity counts too: a slice re-sliced to a short length still holds the allocation
+		n := v.Len()
+		if v.Cap() > n {
+			n = v.Cap()
+		}
+		note(n, b)
+		if !p.info(t.Elem()).hasColl && len(rest) == 0 {
+			return
+		}
+		for i := 0; i < v.Len() && i < 64; i++ {
+			p.walk(v.Index(i), &c41frame{up: fr, idx: i}, rest, depth+1, res)
+		}
+	case reflect.Map:
+		if v.IsNil() {
+			return
+		}
+		if len(bounds) == 0 {
+			bounds = p.info(t).self
+		}
+		b, rest := first(bounds)
+		note(v.Len(), b)
+		keyColl := t.Key().Kind() == reflect.String || t.Key().Kind() == reflect.Slice
+		valColl := p.info(t.Elem()).hasColl
+		if !keyColl && !valColl {
+			return
+		}
+		it := v.MapRange()
+		i := 0
+		for it.Next() && i < 64 {
+			i++
+			if keyColl {
+				k := it.Key()
+				if len(rest) > 0 && rest[0] >= 0 && k.Len() > rest[0] {
+					if res.badKey == "" {
+						res.badKey = t.String()
+						res.badKeyAt = fmt.Sprintf("%s has a key of %d bytes, declared key bound %d", fr.String(), k.Len(), rest[0])
+					}
+				} else {
+					p.walk(k, &c41frame{up: fr, idx: -1}, rest, depth+1, res)
+				}
+			}
+			if valColl {
+				p.walk(it.Value(), &c41frame{up: fr, idx: -2}, nil, depth+1, res)
+			}
+		}
+	case reflect.Ptr:
+		if !v.IsNil() {
+			p.walk(v.Elem(), fr, nil, depth+1, res)
+		}
+	case reflect.Array:
+		if p.info(t).hasColl {
+			for i := 0; i < v.Len(); i++ {
+				p.walk(v.Index(i), &c41frame{up: fr, idx: i}, nil, depth+1, res)
+			}
+		}
+	case reflect.Struct:
+		for _, fi := range p.info(t).fields {
+			p.walk(v.Field(fi.index), &c41frame{up: fr, name: fi.name}, fi.bounds, depth+1, res)
 		}
 	}
 }
@@ -656,7 +740,7 @@ func (p *c41part) decode(typ reflect.Type, name string, input []byte, what strin
 	} else {
 		p.okCount.Add(1)
 	}
-	p.walk(obj.Elem(), "", nil, nil, nil, 0, &out.res)
+	p.walk(obj.Elem(), nil, nil, 0, &out.res)
 	if out.res.badKey != "" {
 		p.report("C41:map-key-bound-unenforced:"+out.res.badKey, fmt.Sprintf("%s: after decoding %s (err=%v) %s", name, what, out.err, out.res.badKeyAt),
 			map[string]any{"engine": "enum", "type": name, "what": what, "input": c41hex(input)})
@@ -708,6 +792,10 @@ func (p *c41part) seedsFor(tg c41target, typ reflect.Type, name string) [][]byte
 		chk := reflect.New(typ)
 		if _, err := chk.Interface().(c41msg).UnmarshalMsg(enc); err != nil {
 			p.r.Note("%s: seed %q is not decodable (%v) — dropped", name, label, err)
+			return
+		}
+		if !p.thorough && len(seeds) > 0 && len(enc) > 3000 {
+			p.r.Note("%s: seed %q (%d bytes) only explored in the thorough tier", name, label, len(enc))
 			return
 		}
 		seeds = append(seeds, enc)
@@ -768,6 +856,7 @@ func (p *c41part) unbounded(t reflect.Type, path string, depth int, seen map[ref
 func (p *c41part) explore(tg c41target) {
 	typ := reflect.TypeOf(tg.proto).Elem()
 	name := typ.String()
+	p.info(typ) // fill the type-info cache single-threaded
 	if u := p.unbounded(typ, "", 0, map[reflect.Type]bool{}); u != "" {
 		p.r.Note("%s: NOT explored — %s is declared allocbound=- (explicitly unbounded; a declared length is honoured by design)", name, u)
 		return
@@ -776,6 +865,13 @@ func (p *c41part) explore(tg c41target) {
 	if len(seeds) == 0 {
 		p.r.Note("%s: NO valid seed — type not explored", name)
 		return
+	}
+	{
+		var sz []string
+		for _, sd := range seeds {
+			sz = append(sz, strconv.Itoa(len(sd)))
+		}
+		p.r.Note("%s: %d seeds of %s bytes", name, len(seeds), strings.Join(sz, "/"))
 	}
 	cls := func(kind string, o c41outcome) {
 		switch {
@@ -793,9 +889,21 @@ func (p *c41part) explore(tg c41target) {
 		if _, ok := c41scan(seed, 0, -1, 0, &toks); !ok {
 			p.r.Note("%s: seed %d could not be tokenized — structural mutations skipped", name, si)
 		}
-		// T + B
+		// T + B. Inside a bin/str payload longer than 32 bytes only the first and last 4 bytes
+		// are rewritten: the decoder copies payload bytes without looking at them.
+		interior := make([]bool, len(seed))
+		for _, tk := range toks {
+			if (tk.kind == c41kBin || tk.kind == c41kStr) && tk.n > 32 {
+				for i := tk.pos + tk.hdr + 4; i < tk.end-4; i++ {
+					interior[i] = true
+				}
+			}
+		}
 		p.r.ParallelFor(len(seed), func(i int) {
 			cls("trunc", p.decode(typ, name, seed[:i], fmt.Sprintf("seed %d truncated to %d of %d bytes", si, i, len(seed))))
+			if interior[i] {
+				return
+			}
 			buf := append([]byte(nil), seed...)
 			for _, x := range c41alphabet {
 				if x == seed[i] {
@@ -955,8 +1063,8 @@ func (p *c41part) pairs(typ reflect.Type, name string, seed []byte, si int, toks
 			pos = append(pos, i)
 		}
 	}
-	if !p.thorough && len(pos) > 120 {
-		pos = pos[:120]
+	if !p.thorough && len(pos) > 64 {
+		pos = pos[:64]
 	}
 	p.r.ParallelFor(len(pos), func(a int) {
 		buf := append([]byte(nil), seed...)
@@ -1141,7 +1249,13 @@ func (p *c41part) run(targets []c41target) {
 		if p.r.OutOfTime() {
 			break
 		}
+		if tg.thoroughOnly && !p.thorough {
+			p.r.Note("%v: explored as a top-level type only in the thorough tier (in quick it is covered nested inside its containers)", reflect.TypeOf(tg.proto).Elem())
+			continue
+		}
+		t0, d0 := time.Now(), p.decodes.Load()
 		p.explore(tg)
+		p.r.Note("%v: %d decodes in %.1fs", reflect.TypeOf(tg.proto).Elem(), p.decodes.Load()-d0, time.Since(t0).Seconds())
 	}
 	runtime.ReadMemStats(&ms1)
 	p.r.Set(p.name+"_decodes", p.decodes.Load())
